@@ -21,7 +21,10 @@ CONSTANTS
     MaxFaults,
     UpAliasByValue, \* TRUE = upstream infos compared by value when assigning aliases (fixed code); FALSE = by pointer (as coded at the pinned commit)
     RequeueOnDeadLink, \* TRUE = acks that could not be written are kept for the next flush
-    Bogus           \* TRUE: the broker may use the never-announced alias 99
+    Bogus,          \* TRUE: the broker may use the never-announced alias 99
+    ReleaseOnCloseMeta  \* FALSE as coded: alias tables only grow. TRUE = reading the UpstreamNormalClose metadata of an upstream forgets its
+                        \* alias (variant: metadata and chunks travel through independent queues, so alias-form chunks of that upstream
+                        \* may still be waiting - ResolvedRight is violated)
 
 VARIABLES s, script
 vars == <<s, script>>
@@ -125,6 +128,13 @@ ReadRes(r) ==
                               !.rd[r] = [pc |-> "idle", c |-> 0]]
     /\ Quiet
 
+\* the consumer reads the UpstreamNormalClose metadata of upstream u (the metadata path is independent of the chunk queue); as coded
+\* this does not touch the alias table, so the action exists only in the variant
+ReadCloseMeta(u) ==
+    /\ ReleaseOnCloseMeta /\ ~s.closed /\ AliasOfUp(s, u) # {}
+    /\ s' = [s EXCEPT !.upAl = [a \in 1..Len(s.upAl) |-> IF s.upAl[a] = u THEN "?" ELSE s.upAl[a]]]
+    /\ Quiet
+
 \* ---------------------------------------------------------------- flushAck
 BufsEmpty(x) == x.upBuf = {} /\ x.idBuf = {} /\ x.resBuf = <<>>
 Flush(x) ==
@@ -186,6 +196,7 @@ Next ==
     \/ \E u \in Ups, f \in Forms, d \in DataIds, g \in IdForms : BSend(u, f[1], f[2], d, g[1], g[2])
     \/ \E r \in Readers : ReadCall(r) \/ ReadTake(r) \/ ReadUp(r) \/ ReadId(r) \/ ReadRes(r)
     \/ AckTick \/ CloseCall \/ FinalFlush \/ CloseSend
+    \/ \E u \in Ups : ReadCloseMeta(u)
     \/ LinkDown \/ WatcherFire \/ RedialResume
 
 Spec == Init /\ [][Next]_vars
